@@ -158,6 +158,29 @@ def run(F, R):
     osr = Y("OmahaServerResponse")
     only_under("OmahaServerResponse", osr, parse_ok)
     always_under("OmahaServerResponse", osr, parse_ok)
+    # .. and authenticated: with a CUP handler configured, the announcement lies behind the success edge of verify_response
+    # (the only other ways past the verification are the no-handler / no-metadata edges, which C02-R2 shows unreachable with a handler)
+    clear = []
+    for n_ in S.nodes:
+        if n_.idx not in S.live or n_.term["k"] != "switch":
+            continue
+        si_ = guards.switch_info(n_.ctx.bv, n_.bi)
+        if si_ is None or si_.kind != "discr":
+            continue
+        h_ = lib.head_call(si_.term) or ""
+        tys_ = si_.ty.get("s", "")
+        for b_ in S.succ[n_.idx]:
+            nm_ = [si_.names.get(l_[2], str(l_[2])) for l_ in S.elabel.get((n_.idx, b_), []) if l_[0] == "switch" and l_[1] == n_.bi]
+            if h_.endswith("Cupv2RequestHandler::verify_response") and any(x in ("Continue", "Ok") for x in nm_):
+                clear.append((n_.idx, b_))
+            elif si_.ty.get("d") == "std::option::Option" and ("Cupv2RequestHandler" in tys_ or "RequestMetadata" in tys_ or "cup_handler" in lib.apath(si_.term)) and nm_ and "Some" not in nm_:
+                clear.append((n_.idx, b_))
+    if R.floor("C04-R2", "verification / no-handler edges in the exchange", len(clear), 2):
+        r_ = reach_pf(S, [entry], cut_edges=clear)
+        bad = [x for x in osr if x in r_]
+        p_ = path(S, [entry], bad, cut_edges=clear) if bad else None
+        R.check("C04-R2", "only-authenticated:OmahaServerResponse", osr and not bad, "the server response is announced only behind a successful verify_response (or without a handler)",
+                "the server response can be announced for a response whose verification was skipped: %s" % (S.fmt_path(p_) if p_ else ""))
     # parse happens only on a verified, successful exchange
     ok_exch = [(a, b) for (a, b, nm) in sm.outcome_edges(S, "std::result::Result", "Ok") if S.nodes[a].ctx is hdr and a in L]
     pj = sm.calls(S, "protocol::response::parse_json_response")
@@ -171,6 +194,14 @@ def run(F, R):
         R.check("C04-R2", "installer-error-only-with-errors", not any(x in r_ for x in ierr), "InstallerError only when the error list is non-empty", "InstallerError reachable with an empty error list")
         loops = [L_ for L_ in comps if any(x in L_ for x in ierr)]
         R.check("C04-R2", "one-installer-error-per-error", len(loops) == 1, "InstallerError is emitted in a loop over the collected errors", "InstallerError is not emitted once per collected error")
+    # an install without failed apps always gets to the reboot question (otherwise WaitingForReboot cannot follow a pending reboot)
+    noerr = [(a, b) for (a, b, tr) in sm.bool_edges(S, _is_error_list) if tr]
+    rn_ = sm.env(S, "Policy", "reboot_needed")
+    if R.floor("C04-R2", "no-install-error edges / reboot_needed calls", min(len(noerr), len(rn_)), 1):
+        for (a, b) in noerr:
+            miss = reach_pf(S, [b], cut_nodes=rn_) & flow_rets
+            R.check("C04-R2", "clean-install-asks-reboot", not miss, "every path from a clean install to the end of the check asks reboot_needed",
+                    "a clean install can end the check without asking reboot_needed (a pending reboot is never announced or performed)", S.nodes[a].loc())
     # denial announces nothing further but still returns
     for (a, b) in ud["DeniedByPolicy"]:
         r_ = reach_pf(S, [b])
